@@ -44,8 +44,22 @@ def chk_seq(N, ws):
     return got == exp, exp, got
 
 
+def chk_edit(N, ws, edits):
+    """acceptance is a function of the CURRENT content of the automaton: query, let the owner edit the transition map in place, query again"""
+    from gambatools.nfa_algorithms import nfa_accepts_word
+    from .C03 import edit_in_place
+    for w in ws: nfa_accepts_word(N, w)
+    N.E(N.q0)
+    edit_in_place(N, edits)
+    if not ref.nfa_wf(N): return True, None, None
+    exp = [ref.nfa_accepts_by_path(N, w) for w in ws]
+    got = [nfa_accepts_word(N, w) for w in ws]
+    return got == exp, 'after in-place edits %s: %s' % (edits, exp), got
+
+
 CHECKS = {'dfa_accepts_word': lambda c: chk_dfa(build(c['D']), c['w']), 'nfa_accepts_word': lambda c: chk_nfa(build(c['N']), c['w']),
-          'epsilon_closure': lambda c: chk_eclo(build(c['N']), c['seed']), 'closure_then_accept': lambda c: chk_seq(build(c['N']), c['ws'])}
+          'epsilon_closure': lambda c: chk_eclo(build(c['N']), c['seed']), 'closure_then_accept': lambda c: chk_seq(build(c['N']), c['ws']),
+          'accept_edit_accept': lambda c: chk_edit(build(c['N']), c['ws'], [tuple(e) for e in c['edits']])}
 
 
 def replay(case):
@@ -83,3 +97,9 @@ def run(R):
         for w in rnd.sample(sorted(ref.words_upto('ab', 5)), 12): dfa_case(D, w)
         N = E.random_nfa(rnd, rnd.randint(3, 5), 'ab', eps=rnd.choice(['', 'e', '_']))
         nfa_cases(N, 3, 'r%d' % i)
+        # the same NFA object queried again after its owner edited the transition map in place (a stale cache on the object would show)
+        N2 = E.random_nfa(rnd, rnd.randint(3, 4), 'ab', eps=rnd.choice(['', 'e', '_']))
+        Qs = sorted(N2.Q); syms = sorted(N2.Sigma) + [N2.epsilon]
+        edits = [(rnd.choice(['add', 'add', 'del']), rnd.choice(Qs), rnd.choice(syms), rnd.choice(Qs)) for _ in range(rnd.randint(1, 2))]
+        d2 = desc(N2); ws2 = list(ref.words(N2.Sigma, 3))
+        R.guard('accept_edit_accept', 'nfa-acceptance-after-edit', lambda: {'N': d2, 'ws': ws2, 'edits': [list(e) for e in edits]}, lambda: chk_edit(build(d2), ws2, edits) + (('edit%d' % i,),), 'nfa_accepts_word')
